@@ -77,7 +77,7 @@ for k in config.KFIX:
 import sys
 sys.setrecursionlimit(20000)
 
-HEADER = ('From Coq Require Import NArith List Bool Lia.\nFrom RL Require Import Model.Decode Proofs.ReaderLemmas Proofs.GenSupport.\n'
+HEADER = ('From Coq Require Import NArith List Bool Lia.\nFrom RL Require Import Model.Decode Model.Encode Proofs.ReaderLemmas Proofs.RefineAvp Proofs.GenSupport.\n'
           'Import ListNotations. Open Scope N_scope.\n')
 SIG = {'gen_decode_avp': '(t : N) : prog (dres avp)', 'gen_data_read': '(w : N) : prog (dres data_msg)',
        'gen_ctrl_read': '(w : N) (o : opts) : prog (result (list derr) ctrl_msg)', 'gen_msg_read': '(o : opts) : prog mres'}
@@ -136,4 +136,90 @@ def translate_all(repo):
         ties['gen_greedy'] = [('equal on the list reader',
                                'Lemma tie : forall fuel l, run (gen_greedy fuel) l = run (greedy fuel) l.\n'
                                'Proof. induction fuel as [|fuel IH]; intros l; [reflexivity|]. cbn [gen_greedy greedy]. loop_eq IH. Qed.\n')]
+    # ------------------------------------------------------------ encoders
+    PARAM_TY = {'u8': 'N', 'u16': 'N', 'u32': 'N', 'u64': 'N', 'usize': 'N', 'Vec<u8>': 'list N', 'String': 'list N', 'CodeValue': 'N',
+                'Option<String>': 'option (list N)', 'Option<Error>': 'option (err_type * option (list N))'}
+    ENC_EQ = ('Proof. intros. cbv [%s wr_payload m_get_length]. repeat match goal with |- context [match ?x with _ => _ end] => '
+              'is_var x; destruct x end; reflexivity. Qed.\n')
+
+    def struct_params(struct):
+        st = crate['structs'].get(struct)
+        if st is None:
+            raise Unsupported('struct %s not found' % struct)
+        ps = []
+        for f, ty in st:
+            ty = ty.replace(' ', '')
+            g = PARAM_TY.get(ty) or ('list N' if ty.startswith('[u8;') else None)
+            if g is None:
+                raise Unsupported('field type %s' % ty)
+            ps.append((f, g))
+        return ps
+
+    for struct in sorted(MODEL_DEC) + ['Hidden', 'SequencingRequired']:
+        for kind in ('wr', 'len'):
+            name = 'gen_%s_%s' % (kind, struct)
+            try:
+                tr = trans.Tr(crate, config)
+                if struct in ('MessageType', 'ProxyAuthenType'):
+                    ps = [('t', 'msg_type' if struct == 'MessageType' else 'pa_type')]
+                    sv = trans.Pure('t')
+                    model_val = '(%s t)' % ('AMessageType' if struct == 'MessageType' else 'AProxyAuthenType')
+                else:
+                    ps = struct_params(struct)
+                    sv = trans.Rec(struct, [(f, trans.Pure(f)) for f, _ in ps])
+                    model_val = tr.text(sv)
+                pt = ' '.join('(%s : %s)' % p for p in ps)
+                vs = ' '.join(p[0] for p in ps)
+                if kind == 'wr':
+                    body = tr.writer_fn(struct, 'write', sv, {}, True)
+                    defs[name] = 'Definition %s %s (w : writer) : writer :=\n  %s.\n' % (name, pt, body)
+                    ties[name] = [('terms equal', 'Lemma tie : forall %s w, %s %s w = wr_payload %s w.\n' % (vs, name, vs, model_val) + ENC_EQ % name)] \
+                        if vs else [('terms equal', 'Lemma tie : forall w, %s w = wr_payload %s w.\n' % (name, model_val) + ENC_EQ % name)]
+                else:
+                    body = tr.pure_fn(struct, 'get_length', sv, {})
+                    defs[name] = 'Definition %s %s : N :=\n  %s.\n' % (name, pt, body)
+                    ties[name] = [('terms equal', 'Lemma tie : forall %s, %s %s = m_get_length %s.\n' % (vs, name, vs, model_val) + ENC_EQ % name)] \
+                        if vs else [('terms equal', 'Lemma tie : %s = m_get_length %s.\n' % (name, model_val) + ENC_EQ % name)]
+            except Unsupported as e:
+                fails[name] = str(e)
+            except RecursionError:
+                fails[name] = 'recursion'
+    # top-level encoders (outcome writer: the asserts and the positional overwrite can refuse)
+    def addw(name, impl, fn, self_val, bind_args, sig, stmt, proof, self_ty=None):
+        try:
+            tr = trans.Tr(crate, config)
+            body = tr.writer_fn(impl, fn, self_val, bind_args, False)
+            defs[name] = 'Definition %s %s : outcome writer :=\n  %s.\n' % (name, sig, body)
+            ties[name] = [('equal on every writer state', 'Lemma tie : %s.\nProof. %s Qed.\n' % (stmt, proof))]
+        except Unsupported as e:
+            fails[name] = str(e)
+        except RecursionError:
+            fails[name] = 'recursion'
+    pv = crate['consts'].get(('Message', 'PROTOCOL_VERSION'))
+    pvv = P(str(pv[1][1])) if pv and pv[1][0] == 'num' else P('2')
+    addw('gen_enc_avp', 'AVP', 'write', P('a'), {}, '(a : avp) (w : writer)',
+         'forall a w, gen_enc_avp a w = m_enc_avp_w a w',
+         'intros a w. unfold gen_enc_avp, m_enc_avp_w. cbv zeta. set (w3 := wr_payload a (w_u16 0 (w_bytes [0; 0] w))). '
+         'guard2 (w_len w <=? w_len w3) (w_len w3 <? w_len w). guard2 (w_len w3 - w_len w <=? 1023) (1023 <? w_len w3 - w_len w). '
+         'rewrite land3_mod256, obind_val. destruct (is_hidden a); reflexivity.')
+    addw('gen_enc_ctrl', 'ControlMessage', 'write', P('m'), {'protocol_version': pvv}, '(m : ctrl_msg) (w : writer)',
+         'forall m w, gen_enc_ctrl m w = m_enc_ctrl_w m w',
+         'intros m w. unfold gen_enc_ctrl, m_enc_ctrl_w. change (flags_new true true true false false 2) with (Val (A := N) 4896). '
+         'cbv iota zeta. cbn [obind]. change (2 <=? 15) with true. cbv iota. '
+         'match goal with |- obind ?x _ = obind ?y _ => change x with y; destruct y as [w4| | |]; cbn [obind]; try reflexivity end. '
+         'guard2 (w_len w <=? w_len w4) (w_len w4 <? w_len w). guard2 (w_len w4 - w_len w <=? 65535) (65535 <? w_len w4 - w_len w). '
+         'rewrite be16_mod, obind_val. reflexivity.')
+    addw('gen_enc_data', 'DataMessage', 'write', P('d'), {'protocol_version': pvv}, '(d : data_msg) (w : writer)',
+         'forall d w, gen_enc_data d w = m_enc_data_w d w',
+         'intros d w. unfold gen_enc_data, m_enc_data_w, flags_new, set_bit. destruct d as [p ln t s nsnr off data]. '
+         'cbn [d_prio d_length d_tunnel d_session d_nsnr d_offset d_data]. destruct ln, nsnr as [[? ?]|], off, p; reflexivity.')
+    try:
+        tr = trans.Tr(crate, config)
+        body = tr.pure_fn('Flags', 'new', None, {'message_type': P('control'), 'has_length': P('l'), 'has_ns_nr': P('s'),
+                                                 'has_offset': P('o'), 'is_prioritized': P('p'), 'version': P('version')}, leaf='Val %s')
+        defs['gen_flags_new'] = 'Definition gen_flags_new (control l s o p : bool) (version : N) : outcome N :=\n  %s.\n' % body
+        ties['gen_flags_new'] = [('equal for all arguments', 'Lemma tie : forall control l s o p version, gen_flags_new control l s o p version = flags_new control l s o p version.\n'
+                                  'Proof. intros. unfold gen_flags_new, flags_new, set_bit. destruct control, l, s, o, p; cbv iota; guard2 (version <=? 15) (15 <? version). Qed.\n')]
+    except Unsupported as e:
+        fails['gen_flags_new'] = str(e)
     return defs, ties, fails
